@@ -1496,6 +1496,43 @@ def r6_status(program, folder, rep):
     rep.floor("C14-R6", 5)
 
 
+# Perl pack codes the struct files use -> the struct module's code of the
+# same width and signedness (perldoc -f pack; the byte order is given once,
+# '<', by the reader).  Trusted.
+PERL_PACK = {b"c": b"b", b"C": b"B", b"s": b"h", b"S": b"H", b"v": b"H",
+             b"n": b"H", b"l": (b"i", b"l"), b"L": (b"I", b"L"),
+             b"V": (b"I", b"L"), b"N": (b"I", b"L"), b"q": b"q", b"Q": b"Q",
+             b"A": b"s", b"a": b"s"}
+
+
+def r6_pack_table(program, folder, rep):
+    """The table translating the struct file's (Perl) field codes into
+    struct-module codes keeps width and signedness: the status blocks are
+    decoded with whatever it says."""
+    SFM = "rig.machine_control.struct_file"
+    program.module(SFM)
+    try:
+        table = folder.name(SFM, "perl_to_python_packs")
+    except AnalysisError:
+        raise AnalysisError("struct_file.perl_to_python_packs does not fold "
+                            "to a constant table")
+    if not isinstance(table, dict) or not table:
+        raise AnalysisError("struct_file.perl_to_python_packs is not a "
+                            "constant dictionary")
+    for k, v in sorted(table.items()):
+        want = PERL_PACK.get(k)
+        if want is None:
+            continue
+        want = want if isinstance(want, tuple) else (want,)
+        rep.check(v in want, "C14-R6", SFM + ":perl_to_python_packs",
+                  "field code %r is decoded as %r (same width and "
+                  "signedness)" % (k, v), construct="pack code %r" % (k,),
+                  fail="the struct-file field code %r is decoded with "
+                       "struct code %r; Perl's %r is %s: values of such "
+                       "fields in the status blocks come out wrong" % (
+                           k, v, k, " or ".join(repr(w) for w in want)))
+
+
 def check(program, rep):
     program.module(MC)
     folder = Folder(program)
@@ -1506,6 +1543,7 @@ def check(program, rep):
     rep.guard("C14-R5", r5_reservations, program, rep)
     rep.guard("C14-R6", r6_status, program, folder, rep)
     rep.guard("C14-R6", r6_version, program, rep)
+    rep.guard("C14-R6", r6_pack_table, program, folder, rep)
     return finish(rep, program, EXPLANATION, NOT_DECIDED,
                   trusted=["SC&MP cmd_info arg1 layout INFO_ARG1 in "
                            "rules/C14.py", "the checker's parser of "
